@@ -153,17 +153,19 @@ CHECKS["C14"] = {
               "upgrade and the peer vanishing or staying connected, against a real Server: the server end of the connection must be closed, no goroutine may still serve "
               "it after the release bound, neither Established nor Finished may fire, and a refused client must see the end of its connection. Over TCP, TCP+TLS and the in-process transport; "
               "peers that half-close, stay, stay silent past the deadline, reset, or vanish right after their last envelope. "
-              "Callback errors come in two flavours: plain, and wrapping a context error although the server's own context is alive."),
+              "Callback errors come in two flavours: plain, and wrapping a context error although the server's own context is alive. "
+              "Plus the library's WebSocket listeners (ws and wss) over loopback, real time: a raw peer fails its handshake at three points (right after connecting, after its new session, during authentication) in four ways (a WebSocket close frame, then waiting for the server to drop the connection; garbage; a wrong session id; a non-session envelope): it sees the end of its connection within 4 s, no Established callback, no goroutine left serving it."),
     "note": "Server runs over the real TCP transport on in-memory connections (closure observed exactly on the server end); serving goroutines found by stack census. A real-time watchdog outside the bubbles turns a library goroutine that spins or waits for a lock for ever (which stops a bubble's clock) into a violation with the stack frame in its signature instead of a timeout.",
     "technique": "fault enumeration over model-classified failing scripts (exhaustive to a depth bound) + rapid, in virtual time",
     "rule": ("cases as in C07 under a real Server, each with the peer ending by EOF (vanishing) or staying connected (wait), rapid adds silence. Judged only when the model "
              "says the handshake failed. Non-trivial: >=2 client envelopes, or a cause other than a first-envelope protocol violation. Distinct by SHA-1 of the case."),
     "assumptions": HANDSHAKE_ASSUMPTIONS,
-    "exhaustive_jobs": ["TestC14Enum"],
+    "exhaustive_jobs": ["TestC14Enum", "TestC14WS"],
     "jobs": [
         {"test": "TestC14Replay", "kind": "plain"},
         {"test": "TestC14Enum", "kind": "plain", "shards": 8, "timeout": (300, 3000)},
         {"test": "TestC14", "kind": "rapid", "shards": 8, "checks": (3000, 60000), "timeout": (300, 3000)},
+        {"test": "TestC14WS", "kind": "plain", "shards": 2, "timeout": (300, 1500), "gomaxprocs": [4, 8]},
     ],
 }
 
